@@ -15,7 +15,7 @@ def build_pml_campaign(tier, sd):
     rnd = random.Random(sd * 41 + 6)
     cp = campaign.Campaign("pml", tier)
     for c in directed.charts():
-        if has_fault(c) or c.binding == "late":
+        if has_fault(c) or c.binding == "late" or c.max_delay() > 0:
             continue
         cid = cp.add_chart(c)
         c.tags.append("D:" + c.name)
